@@ -9,8 +9,9 @@
 (* enumerates every such graph; `-simulate` with a larger MaxNodes draws a *)
 (* seeded sample of bigger ones.                                           *)
 (* For every state whose last node n is a well-formed root (closed,        *)
-(* contractive) and every earlier well-formed i (and pair i<j) such that   *)
-(* the whole graph is reachable from the chosen roots, one line            *)
+(* contractive) and every earlier well-formed i (and pair i<j; triples     *)
+(* carry no verdicts, they serve transitivity) such that the whole graph   *)
+(* is reachable from the chosen roots, one line                            *)
 (*    <<"CASE", ToJson([g, roots, v])>>                                    *)
 (* is printed: the graph in the two-table form of Types.tla, the root ids  *)
 (* and the specification's verdicts at depth D for every ordered pair:     *)
@@ -39,7 +40,8 @@ AscSeq(S) == IF S = {} THEN <<>>
 
 Leaves ==
   {[k |-> "int"], [k |-> "bin"], [k |-> "ref"], [k |-> "res", r |-> "R"],
-   [k |-> "cyc", n |-> 1], [k |-> "cyc", n |-> 2]}
+   [k |-> "cyc", n |-> 1]}
+  \cup (IF MaxNodes >= 4 THEN {[k |-> "cyc", n |-> 2]} ELSE {})  \* needs >= 4 nodes to be closed
   \cup {[k |-> "tup", name |-> nm, fs |-> <<>>] : nm \in Names}
   \cup {[k |-> "par", name |-> nm, fs |-> <<>>] : nm \in {"", "A"}}
 
@@ -88,7 +90,6 @@ Emit ==
       G == ToGraph
       W == {i \in 2..(n - 1) : WellFormed(G, i)}
   IN  (n >= 2 /\ WellFormed(G, n)) =>
-        /\ Covers(G, {n}) => PrintCase(G, <<n>>)
         /\ \A i \in W : Covers(G, {i, n}) => PrintCase(G, <<i, n>>)
         /\ \A i \in W : \A j \in W :
              (i < j /\ Covers(G, {i, j, n})) =>
